@@ -1,1 +1,1329 @@
-//! C38: not implemented yet.
+//! C38 — ntp-ctl / the metrics exporter read exactly what the daemon publishes.
+//!
+//! Engine E-IN + read/write deviation enumeration. Everything goes through the real
+//! `sockets::write_json` / `sockets::read_json::<ObservableState>` (the exact call both clients
+//! make) over harness streams that implement tokio's `AsyncWrite` / `AsyncRead`, record every
+//! request, and follow an explicit schedule of deviations (short transfer / `Pending`).
+//!
+//!  A  `ObservableState` values: every field x its boundary alphabet with the rest at a base
+//!     value ("one"), the k-th alphabet value in every field at once ("diag"), every list shape
+//!     0..=3 sources x 0..=3 servers x rotating fill ("shape"); thorough: every PAIR of
+//!     single-field changes ("pair").
+//!  B  duration sweep: powers of two +-2 units, whole seconds -2000..=2000 x 4 fractions, a
+//!     stride sweep over the whole i64 range (19 durations packed per state).
+//!  C  finite f64 sweep: every finite exponent x both signs x boundary mantissas (5 per state).
+//!  D  announced lengths x available payload x every placement of <= 2 deviations while the
+//!     header is delivered; the reader records every request made after the 8 header bytes.
+//!  E  chunked delivery: every placement of <= 2 deviations (Pending, short transfers of
+//!     1..=7 / half / all-but-one bytes) on the read side and on the write side.
+//!  F  encoded size exactly 2^20 - 1, 2^20 (must be readable) and 2^20 + 1, + 2 (must be
+//!     rejected before the payload is requested).
+//!  G  every truncation of a message (must be an error, never a value, never a panic).
+//!  H  the daemon's own publishing function (`observer::handle_connection`, via probe) for
+//!     every list shape.
+//!
+//! Oracle: the harness keeps its own model of the state (raw integers); the value read back
+//! must equal the model field by field; durations within floor(1e-9*|d|) + 1 units of 2^-32 s.
+use std::collections::HashMap;
+use std::future::Future;
+use std::net::{IpAddr, Ipv4Addr, SocketAddr};
+use std::pin::Pin;
+use std::task::{Context, Poll, Waker};
+
+use ntp_proto::v5::BloomFilter;
+use ntp_proto::{
+    ClockId, NtpDuration, NtpLeapIndicator, NtpSnapshot, NtpTimestamp, ObservableSourceState,
+    ObservableSourceTimedata, PollInterval, ReferenceId, SystemSnapshot, TimeSnapshot,
+};
+use tokio::io::{AsyncRead, AsyncWrite, ReadBuf};
+
+use super::common::{self, Ctx};
+use crate::daemon::config::ServerConfig;
+use crate::daemon::observer::verif_probe::gm as observer_probe;
+use crate::daemon::observer::{ObservableServerState, ObservableState, ProgramData};
+use crate::daemon::server::ServerStats;
+use crate::daemon::server::verif_probe::gm as server_probe;
+use crate::daemon::sockets::{read_json, write_json};
+use crate::daemon::system::ServerData;
+
+const LIMIT: u64 = 1 << 20; // "1 MiB" of the statement
+
+// --- constructing time values from raw bits with public, exact arithmetic -----------------
+
+fn mk_ts(v: u64) -> NtpTimestamp {
+    let mut t = NtpTimestamp::default();
+    for b in 0..63u32 {
+        if (v >> b) & 1 == 1 {
+            t += NtpDuration::from_exponent(b as i8 - 32);
+        }
+    }
+    if v >> 63 == 1 {
+        t += NtpDuration::from_exponent(30);
+        t += NtpDuration::from_exponent(30);
+    }
+    t
+}
+
+fn mk_dur(v: i64) -> NtpDuration {
+    mk_ts(v as u64) - NtpTimestamp::default()
+}
+
+fn mk_id(v: u64) -> ClockId {
+    serde_json::from_str::<ClockId>(&v.to_string()).expect("ClockId from integer")
+}
+
+fn self_test() -> Result<(), String> {
+    for (s, n) in [(0u32, 0u32), (1, 0), (3_900_000_000, 0), (u32::MAX, 0), (17, 500_000_000)] {
+        let want = NtpTimestamp::from_seconds_nanos_since_ntp_era(s, n);
+        let frac = ((n as u64) << 32) / 1_000_000_000;
+        if mk_ts(((s as u64) << 32) + frac) != want {
+            return Err(format!("mk_ts disagrees with from_seconds_nanos_since_ntp_era({s},{n})"));
+        }
+    }
+    if mk_dur(0) != NtpDuration::ZERO || mk_dur(i64::MAX) != NtpDuration::MAX {
+        return Err("mk_dur(0)/mk_dur(MAX) wrong".into());
+    }
+    if !(mk_dur(-1) < NtpDuration::ZERO && mk_dur(i64::MIN) < mk_dur(-1) && mk_dur(1) > NtpDuration::ZERO) {
+        return Err("mk_dur ordering wrong".into());
+    }
+    for v in [0u64, 1, (1 << 53) + 1, u64::MAX] {
+        if mk_id(v).to_string() != v.to_string() {
+            return Err(format!("mk_id({v}) displays as {}", mk_id(v)));
+        }
+    }
+    Ok(())
+}
+
+// --- the harness's model of a published state -----------------------------------------------
+
+#[derive(Clone, Debug, PartialEq)]
+struct MSource {
+    durs: [i64; 5], // offset, uncertainty, delay, remote_delay, remote_uncertainty
+    last_update: u64,
+    unanswered_polls: u32,
+    poll_interval: u8,
+    nts_cookies: Option<usize>,
+    name: String,
+    address: String,
+    id: u64,
+}
+
+#[derive(Clone, Debug, PartialEq)]
+struct MServer {
+    address: SocketAddr,
+    counters: [u64; 11],
+}
+
+#[derive(Clone, Debug, PartialEq)]
+struct MState {
+    version: String,
+    build_commit: String,
+    build_commit_date: String,
+    uptime: f64,
+    now: u64,
+    precision: i64,
+    root_delay: i64,
+    base_time: u64,
+    var: [f64; 4],
+    leap: usize,
+    acc_steps: i64,
+    acc_thr: Option<i64>,
+    stratum: u8,
+    refid: u32,
+    sources: Vec<MSource>,
+    servers: Vec<MServer>,
+}
+
+const DUR_NAMES: [&str; 5] = ["offset", "uncertainty", "delay", "remote_delay", "remote_uncertainty"];
+const COUNTER_NAMES: [&str; 11] = [
+    "received_packets",
+    "accepted_packets",
+    "denied_packets",
+    "ignored_packets",
+    "rate_limited_packets",
+    "response_send_errors",
+    "nts_received_packets",
+    "nts_accepted_packets",
+    "nts_denied_packets",
+    "nts_rate_limited_packets",
+    "nts_nak_packets",
+];
+const LEAPS: [NtpLeapIndicator; 5] = [
+    NtpLeapIndicator::NoWarning,
+    NtpLeapIndicator::Leap61,
+    NtpLeapIndicator::Leap59,
+    NtpLeapIndicator::Unknown,
+    NtpLeapIndicator::Unsynchronized,
+];
+
+fn base_source(i: usize) -> MSource {
+    MSource {
+        durs: [4_294_967 * (i as i64 + 1), 429_496, 85_899_345, 42_949_672, 214_748],
+        last_update: 0xEB00_0000_8000_0000 + i as u64,
+        unanswered_polls: i as u32,
+        poll_interval: 4 + i as u8,
+        nts_cookies: if i % 2 == 0 { None } else { Some(8) },
+        name: format!("ntp{i}.example.com:123"),
+        address: format!("192.0.2.{}:123", i + 1),
+        id: 10 + i as u64,
+    }
+}
+
+fn base_server(i: usize) -> MServer {
+    let mut counters = [0u64; 11];
+    for (k, c) in counters.iter_mut().enumerate() {
+        *c = (i as u64 + 1) * 1000 + k as u64;
+    }
+    MServer {
+        address: SocketAddr::new(IpAddr::V4(Ipv4Addr::new(192, 0, 2, 100 + i as u8)), 123 + i as u16),
+        counters,
+    }
+}
+
+fn base(ns: usize, nv: usize) -> MState {
+    MState {
+        version: "1.6.2".into(),
+        build_commit: "0123456789abcdef0123456789abcdef01234567".into(),
+        build_commit_date: "2026-07-15".into(),
+        uptime: 12_345.678_9,
+        now: 0xEB00_0001_4000_0000,
+        precision: 4_294_967,
+        root_delay: 42_949_672,
+        base_time: 0xEB00_0000_0000_0000,
+        var: [1e-6, 1e-9, 1e-12, 0.0],
+        leap: 0,
+        acc_steps: 0,
+        acc_thr: None,
+        stratum: 2,
+        refid: 0xC000_0201,
+        sources: (0..ns).map(base_source).collect(),
+        servers: (0..nv).map(base_server).collect(),
+    }
+}
+
+fn build_source(s: &MSource) -> ObservableSourceState {
+    ObservableSourceState {
+        timedata: ObservableSourceTimedata {
+            offset: mk_dur(s.durs[0]),
+            uncertainty: mk_dur(s.durs[1]),
+            delay: mk_dur(s.durs[2]),
+            remote_delay: mk_dur(s.durs[3]),
+            remote_uncertainty: mk_dur(s.durs[4]),
+            last_update: mk_ts(s.last_update),
+        },
+        unanswered_polls: s.unanswered_polls,
+        poll_interval: PollInterval::from_byte(s.poll_interval),
+        nts_cookies: s.nts_cookies,
+        name: s.name.clone(),
+        address: s.address.clone(),
+        id: mk_id(s.id),
+    }
+}
+
+fn build_stats(c: &[u64; 11]) -> ServerStats {
+    ServerStats {
+        received_packets: server_probe::counter(c[0]),
+        accepted_packets: server_probe::counter(c[1]),
+        denied_packets: server_probe::counter(c[2]),
+        ignored_packets: server_probe::counter(c[3]),
+        rate_limited_packets: server_probe::counter(c[4]),
+        response_send_errors: server_probe::counter(c[5]),
+        nts_received_packets: server_probe::counter(c[6]),
+        nts_accepted_packets: server_probe::counter(c[7]),
+        nts_denied_packets: server_probe::counter(c[8]),
+        nts_rate_limited_packets: server_probe::counter(c[9]),
+        nts_nak_packets: server_probe::counter(c[10]),
+    }
+}
+
+fn build_system(m: &MState) -> SystemSnapshot {
+    SystemSnapshot {
+        time_snapshot: TimeSnapshot {
+            precision: mk_dur(m.precision),
+            root_delay: mk_dur(m.root_delay),
+            root_variance_base_time: mk_ts(m.base_time),
+            root_variance_base: m.var[0],
+            root_variance_linear: m.var[1],
+            root_variance_quadratic: m.var[2],
+            root_variance_cubic: m.var[3],
+            leap_indicator: LEAPS[m.leap],
+            accumulated_steps: mk_dur(m.acc_steps),
+            accumulated_steps_threshold: m.acc_thr.map(mk_dur),
+        },
+        ntp_snapshot: NtpSnapshot {
+            stratum: m.stratum,
+            reference_id: ReferenceId::from_ip(IpAddr::V4(Ipv4Addr::from(m.refid))),
+            bloom_filter: BloomFilter::new(),
+        },
+    }
+}
+
+fn build(m: &MState) -> ObservableState {
+    ObservableState {
+        program: ProgramData {
+            version: m.version.clone(),
+            build_commit: m.build_commit.clone(),
+            build_commit_date: m.build_commit_date.clone(),
+            uptime_seconds: m.uptime,
+            now: mk_ts(m.now),
+        },
+        system: build_system(m),
+        sources: m.sources.iter().map(build_source).collect(),
+        servers: m
+            .servers
+            .iter()
+            .map(|s| ObservableServerState { address: s.address, stats: build_stats(&s.counters) })
+            .collect(),
+    }
+}
+
+/// floor(1e-9 * |d|) + 1 units, computed in integers.
+fn dur_tolerance(d: i64) -> i128 {
+    (d as i128).abs() / 1_000_000_000 + 1
+}
+
+fn dur_ok(want: i64, got: NtpDuration) -> bool {
+    let tol = dur_tolerance(want);
+    let lo = (want as i128 - tol).max(i64::MIN as i128) as i64;
+    let hi = (want as i128 + tol).min(i64::MAX as i128) as i64;
+    mk_dur(lo) <= got && got <= mk_dur(hi)
+}
+
+/// Field-by-field comparison of the value read back with the model. `skip_uptime`: the
+/// publishing path (H) stamps its own uptime.
+fn compare(m: &MState, g: &ObservableState, by_id: bool, skip_uptime: bool) -> Vec<String> {
+    let mut bad: Vec<String> = Vec::new();
+    macro_rules! eq {
+        ($path:expr, $want:expr, $got:expr) => {
+            if $want != $got {
+                bad.push(format!("{}: wrote {:?}, read {:?}", $path, $want, $got));
+            }
+        };
+    }
+    macro_rules! feq {
+        ($path:expr, $want:expr, $got:expr) => {{
+            let (w, g): (f64, f64) = ($want, $got);
+            FLOATS_COMPARED.fetch_add(1, std::sync::atomic::Ordering::Relaxed);
+            if w != g {
+                let ulps = (w.to_bits() as i64).wrapping_sub(g.to_bits() as i64).unsigned_abs();
+                FLOATS_DIFFERENT.fetch_add(1, std::sync::atomic::Ordering::Relaxed);
+                FLOAT_MAX_ULPS.fetch_max(ulps, std::sync::atomic::Ordering::Relaxed);
+                bad.push(format!("{}: wrote {:?}, read {:?} [float, {} ulp]", $path, w, g, ulps));
+            }
+        }};
+    }
+    macro_rules! dur {
+        ($path:expr, $want:expr, $got:expr) => {{
+            let (want, got): (i64, NtpDuration) = ($want, $got);
+            if !dur_ok(want, got) {
+                bad.push(format!(
+                    "{}: wrote {want} units ({:e} s), read {:e} s (tolerance {} units)",
+                    $path,
+                    want as f64 / 4_294_967_296.0,
+                    got.to_seconds(),
+                    dur_tolerance(want)
+                ));
+            }
+        }};
+    }
+    eq!("program.version", m.version, g.program.version);
+    eq!("program.build_commit", m.build_commit, g.program.build_commit);
+    eq!("program.build_commit_date", m.build_commit_date, g.program.build_commit_date);
+    if !skip_uptime {
+        feq!("program.uptime_seconds", m.uptime, g.program.uptime_seconds);
+    } else if !(g.program.uptime_seconds.is_finite() && g.program.uptime_seconds >= 0.0) {
+        bad.push(format!("program.uptime_seconds: read {:?}", g.program.uptime_seconds));
+    }
+    eq!("program.now", mk_ts(m.now), g.program.now);
+    let t = &g.system.time_snapshot;
+    dur!("system.precision", m.precision, t.precision);
+    dur!("system.root_delay", m.root_delay, t.root_delay);
+    eq!("system.root_variance_base_time", mk_ts(m.base_time), t.root_variance_base_time);
+    feq!("system.root_variance_base", m.var[0], t.root_variance_base);
+    feq!("system.root_variance_linear", m.var[1], t.root_variance_linear);
+    feq!("system.root_variance_quadratic", m.var[2], t.root_variance_quadratic);
+    feq!("system.root_variance_cubic", m.var[3], t.root_variance_cubic);
+    eq!("system.leap_indicator", LEAPS[m.leap], t.leap_indicator);
+    dur!("system.accumulated_steps", m.acc_steps, t.accumulated_steps);
+    match (m.acc_thr, t.accumulated_steps_threshold) {
+        (None, None) => {}
+        (Some(w), Some(gv)) => dur!("system.accumulated_steps_threshold", w, gv),
+        (w, gv) => bad.push(format!("system.accumulated_steps_threshold: wrote {w:?}, read {gv:?}")),
+    }
+    eq!("system.stratum", m.stratum, g.system.ntp_snapshot.stratum);
+    eq!(
+        "system.reference_id",
+        ReferenceId::from_ip(IpAddr::V4(Ipv4Addr::from(m.refid))),
+        g.system.ntp_snapshot.reference_id
+    );
+    eq!("sources.len", m.sources.len(), g.sources.len());
+    let mut gs: Vec<&ObservableSourceState> = g.sources.iter().collect();
+    let mut ms: Vec<&MSource> = m.sources.iter().collect();
+    if by_id {
+        gs.sort_by_key(|s| s.id);
+        ms.sort_by_key(|s| s.id);
+    }
+    for (i, (w, r)) in ms.iter().zip(gs.iter()).enumerate() {
+        let p = format!("sources[{i}]");
+        let td = &r.timedata;
+        for (k, got) in [td.offset, td.uncertainty, td.delay, td.remote_delay, td.remote_uncertainty].into_iter().enumerate() {
+            dur!(format!("{p}.{}", DUR_NAMES[k]), w.durs[k], got);
+        }
+        eq!(format!("{p}.last_update"), mk_ts(w.last_update), td.last_update);
+        eq!(format!("{p}.unanswered_polls"), w.unanswered_polls, r.unanswered_polls);
+        eq!(format!("{p}.poll_interval"), w.poll_interval, r.poll_interval.as_byte());
+        eq!(format!("{p}.nts_cookies"), w.nts_cookies, r.nts_cookies);
+        eq!(format!("{p}.name"), w.name, r.name);
+        eq!(format!("{p}.address"), w.address, r.address);
+        eq!(format!("{p}.id"), w.id.to_string(), r.id.to_string());
+    }
+    eq!("servers.len", m.servers.len(), g.servers.len());
+    for (i, (w, r)) in m.servers.iter().zip(g.servers.iter()).enumerate() {
+        let p = format!("servers[{i}]");
+        eq!(format!("{p}.address"), w.address, r.address);
+        let st = &r.stats;
+        let got = [
+            st.received_packets.get(),
+            st.accepted_packets.get(),
+            st.denied_packets.get(),
+            st.ignored_packets.get(),
+            st.rate_limited_packets.get(),
+            st.response_send_errors.get(),
+            st.nts_received_packets.get(),
+            st.nts_accepted_packets.get(),
+            st.nts_denied_packets.get(),
+            st.nts_rate_limited_packets.get(),
+            st.nts_nak_packets.get(),
+        ];
+        for k in 0..11 {
+            eq!(format!("{p}.stats.{}", COUNTER_NAMES[k]), w.counters[k], got[k]);
+        }
+    }
+    bad
+}
+
+static FLOATS_COMPARED: std::sync::atomic::AtomicU64 = std::sync::atomic::AtomicU64::new(0);
+static FLOATS_DIFFERENT: std::sync::atomic::AtomicU64 = std::sync::atomic::AtomicU64::new(0);
+static FLOAT_MAX_ULPS: std::sync::atomic::AtomicU64 = std::sync::atomic::AtomicU64::new(0);
+
+/// Violation class of a list of mismatches (most specific cause first).
+fn mismatch_class(bad: &[String]) -> &'static str {
+    if bad.iter().any(|b| !b.contains("units (") && !b.contains("[float,")) {
+        "C38:value-changed"
+    } else if bad.iter().any(|b| b.contains("units (")) {
+        "C38:duration-out-of-tolerance"
+    } else {
+        "C38:float-not-equal"
+    }
+}
+
+// --- alphabets ------------------------------------------------------------------------------------
+
+const S31: i64 = (1i64 << 31) - 1;
+fn dur_alphabet() -> Vec<i64> {
+    vec![
+        0, 1, -1, 2, -2, 0xFFFF_FFFF, -0xFFFF_FFFF, 1 << 32, -(1 << 32), (1 << 32) + 1, -(1 << 32) - 1,
+        4_294_967, -4_294_967, 1000 << 32, -(1000i64 << 32), 86_400 << 32, -(86_400i64 << 32), S31 << 32,
+        (S31 << 32) | 0x8000_0000, i64::MAX, i64::MAX - 1, i64::MIN, i64::MIN + 1, i64::MIN + (1 << 32),
+        1 << 53, (1 << 53) + 1, -(1 << 53) - 1, 0x0123_4567_89AB_CDEF, -0x0123_4567_89AB_CDEF,
+    ]
+}
+fn ts_alphabet() -> Vec<u64> {
+    vec![0, 1, 0xFFFF_FFFF, 1 << 32, 1 << 53, (1 << 53) + 1, 1 << 63, (1 << 63) + 1, u64::MAX - 1, u64::MAX]
+}
+fn cnt_alphabet() -> Vec<u64> {
+    vec![0, 1, 1 << 32, 1 << 53, (1 << 53) + 1, i64::MAX as u64, 1 << 63, u64::MAX]
+}
+fn f64_alphabet() -> Vec<f64> {
+    vec![
+        0.0, -0.0, 1.0, -1.5, 0.1, 1.0 / 3.0, 1e-9, f64::MIN_POSITIVE, 5e-324, 1e300, f64::MAX, -f64::MAX,
+        9_007_199_254_740_993.0, 0.1 + 0.2, 123_456_789.123_456_79, 1e21, 1e-7, 8.41e21, 2.225_073_858_507_201e-308,
+        1e23, 8.5e-323, 4.35e-322, 9.5e-305, 6.9294956446009195e15, 1.7976931348623157e308,
+    ]
+}
+fn name_alphabet() -> Vec<String> {
+    vec![
+        String::new(),
+        "a".into(),
+        "127.0.0.3:123".into(),
+        "\"quoted\\back/slash\"".into(),
+        "tab\tnl\ncr\r nul\0 esc\u{1b} del\u{7f}".into(),
+        "\u{fc}n\u{ef}c\u{f8}d\u{e9} \u{1F600} \u{2028}\u{ffff}".into(),
+        "x".repeat(70_000),
+        "{\"a\":[1,2,{\"b\":null}]}".repeat(12),
+    ]
+}
+fn cookie_alphabet() -> Vec<Option<usize>> {
+    vec![None, Some(0), Some(1), Some(8), Some((1 << 53) + 1), Some(usize::MAX)]
+}
+fn addr_alphabet() -> Vec<SocketAddr> {
+    ["0.0.0.0:0", "127.0.0.1:123", "255.255.255.255:65535", "[::]:123", "[::1]:0", "[2001:db8::1]:65535", "[fe80::1%5]:123", "[::ffff:1.2.3.4]:123"]
+        .iter()
+        .map(|s| s.parse().expect("addr"))
+        .collect()
+}
+
+type Mutator = Box<dyn Fn(&mut MState) + Send + Sync>;
+
+/// Every (field, alphabet value) of a state with 2 sources and 2 servers.
+fn mutators() -> Vec<(String, Mutator)> {
+    let mut v: Vec<(String, Mutator)> = Vec::new();
+    macro_rules! add {
+        ($name:expr, $f:expr) => {
+            v.push(($name, Box::new($f)));
+        };
+    }
+    for (i, s) in name_alphabet().into_iter().enumerate() {
+        let (a, b, c, d, e) = (s.clone(), s.clone(), s.clone(), s.clone(), s.clone());
+        add!(format!("version=name#{i}"), move |m: &mut MState| m.version = a.clone());
+        add!(format!("build_commit=name#{i}"), move |m: &mut MState| m.build_commit = b.clone());
+        add!(format!("build_commit_date=name#{i}"), move |m: &mut MState| m.build_commit_date = c.clone());
+        for si in 0..2 {
+            let (d, e) = (d.clone(), e.clone());
+            add!(format!("sources[{si}].name=name#{i}"), move |m: &mut MState| m.sources[si].name = d.clone());
+            add!(format!("sources[{si}].address=name#{i}"), move |m: &mut MState| m.sources[si].address = e.clone());
+        }
+    }
+    for x in f64_alphabet() {
+        add!(format!("uptime={x:e}"), move |m: &mut MState| m.uptime = x);
+        for k in 0..4 {
+            add!(format!("var[{k}]={x:e}"), move |m: &mut MState| m.var[k] = x);
+        }
+    }
+    for x in ts_alphabet() {
+        add!(format!("now={x}"), move |m: &mut MState| m.now = x);
+        add!(format!("base_time={x}"), move |m: &mut MState| m.base_time = x);
+        for si in 0..2 {
+            add!(format!("sources[{si}].last_update={x}"), move |m: &mut MState| m.sources[si].last_update = x);
+        }
+    }
+    for x in dur_alphabet() {
+        add!(format!("precision={x}"), move |m: &mut MState| m.precision = x);
+        add!(format!("root_delay={x}"), move |m: &mut MState| m.root_delay = x);
+        add!(format!("acc_steps={x}"), move |m: &mut MState| m.acc_steps = x);
+        add!(format!("acc_thr=Some({x})"), move |m: &mut MState| m.acc_thr = Some(x));
+        for si in 0..2 {
+            for k in 0..5 {
+                add!(format!("sources[{si}].{}={x}", DUR_NAMES[k]), move |m: &mut MState| m.sources[si].durs[k] = x);
+            }
+        }
+    }
+    for x in 0..5 {
+        add!(format!("leap={x}"), move |m: &mut MState| m.leap = x);
+    }
+    for x in [0u8, 1, 15, 16, 255] {
+        add!(format!("stratum={x}"), move |m: &mut MState| m.stratum = x);
+    }
+    for x in [0u32, 0x584e_4f4e, 0x7F00_0001, u32::MAX] {
+        add!(format!("refid={x:#x}"), move |m: &mut MState| m.refid = x);
+    }
+    for si in 0..2 {
+        for x in [0u32, 1, 8, u32::MAX] {
+            add!(format!("sources[{si}].unanswered_polls={x}"), move |m: &mut MState| m.sources[si].unanswered_polls = x);
+        }
+        for x in [0u8, 4, 10, 17, 127, 128, 255] {
+            add!(format!("sources[{si}].poll_interval={x}"), move |m: &mut MState| m.sources[si].poll_interval = x);
+        }
+        for x in cookie_alphabet() {
+            add!(format!("sources[{si}].nts_cookies={x:?}"), move |m: &mut MState| m.sources[si].nts_cookies = x);
+        }
+        for x in [0u64, 1, (1 << 53) + 1, u64::MAX] {
+            add!(format!("sources[{si}].id={x}"), move |m: &mut MState| m.sources[si].id = x);
+        }
+    }
+    for vi in 0..2 {
+        for x in addr_alphabet() {
+            add!(format!("servers[{vi}].address={x}"), move |m: &mut MState| m.servers[vi].address = x);
+        }
+        for k in 0..11 {
+            for x in cnt_alphabet() {
+                add!(format!("servers[{vi}].{}={x}", COUNTER_NAMES[k]), move |m: &mut MState| m.servers[vi].counters[k] = x);
+            }
+        }
+    }
+    v
+}
+
+/// State with `ns` sources / `nv` servers whose every field takes the (p + field number)-th
+/// value of its alphabet (rotating fill); p = 0.. covers every alphabet value in every field.
+fn filled(ns: usize, nv: usize, p: usize, rotate: bool) -> MState {
+    let (da, ta, ca, fa, na, ka, aa) =
+        (dur_alphabet(), ts_alphabet(), cnt_alphabet(), f64_alphabet(), name_alphabet(), cookie_alphabet(), addr_alphabet());
+    let mut n = 0usize;
+    let mut next = move || {
+        let r = if rotate { p + n } else { p };
+        n += 1;
+        r
+    };
+    // names: skip the 70 000 character one in fills (covered by "one"), keeps states small
+    let name = |i: usize| {
+        let s = &na[i % na.len()];
+        if s.len() > 1000 { format!("long#{i}") } else { s.clone() }
+    };
+    let mut m = base(ns, nv);
+    m.version = name(next());
+    m.build_commit = name(next());
+    m.build_commit_date = name(next());
+    m.uptime = fa[next() % fa.len()];
+    m.now = ta[next() % ta.len()];
+    m.precision = da[next() % da.len()];
+    m.root_delay = da[next() % da.len()];
+    m.base_time = ta[next() % ta.len()];
+    for k in 0..4 {
+        m.var[k] = fa[next() % fa.len()];
+    }
+    m.leap = next() % 5;
+    m.acc_steps = da[next() % da.len()];
+    let i = next();
+    m.acc_thr = if i % (da.len() + 1) == da.len() { None } else { Some(da[i % (da.len() + 1)]) };
+    m.stratum = [0u8, 1, 15, 16, 255][next() % 5];
+    m.refid = [0u32, 0x584e_4f4e, 0x7F00_0001, u32::MAX][next() % 4];
+    for (si, s) in m.sources.iter_mut().enumerate() {
+        for k in 0..5 {
+            s.durs[k] = da[next() % da.len()];
+        }
+        s.last_update = ta[next() % ta.len()];
+        s.unanswered_polls = [0u32, 1, 8, u32::MAX][next() % 4];
+        s.poll_interval = [0u8, 4, 10, 17, 127, 128, 255][next() % 7];
+        s.nts_cookies = ka[next() % ka.len()];
+        s.name = name(next());
+        s.address = name(next());
+        // ids must stay distinct (they are map keys in the daemon)
+        s.id = [0u64, 1, (1 << 53) + 1, u64::MAX][next() % 4].wrapping_add(si as u64 * 7);
+    }
+    for s in m.servers.iter_mut() {
+        s.address = aa[next() % aa.len()];
+        for k in 0..11 {
+            s.counters[k] = ca[next() % ca.len()];
+        }
+    }
+    m
+}
+
+// --- harness streams -----------------------------------------------------------------------
+
+#[derive(Clone, Copy, Debug, PartialEq, Eq, Hash)]
+enum Dev {
+    Pending,
+    Short(usize), // transfer at most this many bytes (>= 1)
+    Half,         // transfer half of what was asked (at least 1)
+    AllButOne,    // transfer one byte less than asked (at least 1)
+}
+
+type Sched = Vec<(usize, Dev)>; // (call index, deviation)
+
+fn sched_str(s: &Sched) -> String {
+    if s.is_empty() {
+        return "-".into();
+    }
+    s.iter()
+        .map(|(i, d)| match d {
+            Dev::Pending => format!("{i}=P"),
+            Dev::Short(n) => format!("{i}=S{n}"),
+            Dev::Half => format!("{i}=H"),
+            Dev::AllButOne => format!("{i}=B"),
+        })
+        .collect::<Vec<_>>()
+        .join(",")
+}
+
+fn parse_sched(s: &str) -> Option<Sched> {
+    if s == "-" {
+        return Some(vec![]);
+    }
+    s.split(',')
+        .map(|p| {
+            let (i, d) = p.split_once('=')?;
+            let d = match d {
+                "P" => Dev::Pending,
+                "H" => Dev::Half,
+                "B" => Dev::AllButOne,
+                x => Dev::Short(x.strip_prefix('S')?.parse().ok()?),
+            };
+            Some((i.parse().ok()?, d))
+        })
+        .collect()
+}
+
+fn allowed(dev: Option<Dev>, want: usize) -> Option<usize> {
+    match dev {
+        None => Some(want),
+        Some(Dev::Pending) => None,
+        Some(Dev::Short(n)) => Some(want.min(n.max(1))),
+        Some(Dev::Half) => Some((want / 2).max(1).min(want)),
+        Some(Dev::AllButOne) => Some(want.saturating_sub(1).max(1).min(want)),
+    }
+}
+
+struct SchedReader<'a> {
+    data: &'a [u8],
+    pos: usize,
+    calls: usize,
+    sched: &'a Sched,
+    /// requests made once the 8 header bytes had been delivered: (bytes requested)
+    after_header_requests: Vec<usize>,
+    deviations_applied: usize,
+}
+
+impl<'a> SchedReader<'a> {
+    fn new(data: &'a [u8], sched: &'a Sched) -> Self {
+        SchedReader { data, pos: 0, calls: 0, sched, after_header_requests: Vec::new(), deviations_applied: 0 }
+    }
+}
+
+impl AsyncRead for SchedReader<'_> {
+    fn poll_read(mut self: Pin<&mut Self>, cx: &mut Context<'_>, buf: &mut ReadBuf<'_>) -> Poll<std::io::Result<()>> {
+        let idx = self.calls;
+        self.calls += 1;
+        let want = buf.remaining();
+        if self.pos >= 8 {
+            self.after_header_requests.push(want);
+        }
+        let dev = self.sched.iter().find(|(i, _)| *i == idx).map(|(_, d)| *d);
+        if dev.is_some() {
+            self.deviations_applied += 1;
+        }
+        let avail = self.data.len() - self.pos;
+        match allowed(dev, want.min(avail)) {
+            None => {
+                cx.waker().wake_by_ref();
+                Poll::Pending
+            }
+            Some(n) => {
+                let (p, n) = (self.pos, n.min(avail).min(want));
+                buf.put_slice(&self.data[p..p + n]);
+                self.pos += n;
+                Poll::Ready(Ok(()))
+            }
+        }
+    }
+}
+
+struct SchedWriter<'a> {
+    data: Vec<u8>,
+    calls: usize,
+    sched: &'a Sched,
+    deviations_applied: usize,
+}
+
+impl AsyncWrite for SchedWriter<'_> {
+    fn poll_write(mut self: Pin<&mut Self>, cx: &mut Context<'_>, buf: &[u8]) -> Poll<std::io::Result<usize>> {
+        let idx = self.calls;
+        self.calls += 1;
+        let dev = self.sched.iter().find(|(i, _)| *i == idx).map(|(_, d)| *d);
+        if dev.is_some() {
+            self.deviations_applied += 1;
+        }
+        match allowed(dev, buf.len()) {
+            None => {
+                cx.waker().wake_by_ref();
+                Poll::Pending
+            }
+            Some(n) => {
+                self.data.extend_from_slice(&buf[..n]);
+                Poll::Ready(Ok(n))
+            }
+        }
+    }
+    fn poll_flush(self: Pin<&mut Self>, _cx: &mut Context<'_>) -> Poll<std::io::Result<()>> {
+        Poll::Ready(Ok(()))
+    }
+    fn poll_shutdown(self: Pin<&mut Self>, _cx: &mut Context<'_>) -> Poll<std::io::Result<()>> {
+        Poll::Ready(Ok(()))
+    }
+}
+
+/// Drive a future that only depends on harness streams; `Err` = it never completed.
+fn drive<F: Future>(f: F) -> Result<F::Output, String> {
+    let mut f = std::pin::pin!(f);
+    let mut cx = Context::from_waker(Waker::noop());
+    for _ in 0..1_000_000 {
+        if let Poll::Ready(v) = f.as_mut().poll(&mut cx) {
+            return Ok(v);
+        }
+    }
+    Err("future still pending after 10^6 polls".into())
+}
+
+struct ReadOutcome {
+    result: Result<ObservableState, String>,
+    consumed: usize,
+    after_header_requests: Vec<usize>,
+    deviations_applied: usize,
+}
+
+/// `read_json::<ObservableState>` exactly as ntp-ctl and the exporter call it.
+fn do_read(bytes: &[u8], sched: &Sched) -> Result<ReadOutcome, String> {
+    let mut reader = SchedReader::new(bytes, sched);
+    let mut msg: Vec<u8> = Vec::with_capacity(16 * 1024);
+    msg.extend_from_slice(b"stale bytes from a previous message"); // clients reuse nothing, but must not matter
+    let r = common::catch(|| drive(read_json::<ObservableState>(&mut reader, &mut msg)));
+    let result = match r {
+        Err(p) => return Err(format!("read_json panicked: {p}")),
+        Ok(Err(stall)) => return Err(format!("read_json: {stall}")),
+        Ok(Ok(Ok(v))) => Ok(v),
+        Ok(Ok(Err(e))) => Err(format!("{:?}: {e}", e.kind())),
+    };
+    Ok(ReadOutcome {
+        result,
+        consumed: reader.pos,
+        after_header_requests: reader.after_header_requests.clone(),
+        deviations_applied: reader.deviations_applied,
+    })
+}
+
+fn do_write(state: &ObservableState, sched: &Sched) -> Result<(Vec<u8>, usize), String> {
+    let mut w = SchedWriter { data: Vec::new(), calls: 0, sched, deviations_applied: 0 };
+    match common::catch(|| drive(write_json(&mut w, state))) {
+        Err(p) => Err(format!("write_json panicked: {p}")),
+        Ok(Err(stall)) => Err(format!("write_json: {stall}")),
+        Ok(Ok(Err(e))) => Err(format!("write_json failed: {e}")),
+        Ok(Ok(Ok(()))) => Ok((w.data, w.deviations_applied)),
+    }
+}
+
+/// write -> read -> compare for one model state; returns the observation string.
+fn roundtrip(ctx: &Ctx, m: &MState, trace: &str, wsched: &Sched, rsched: &Sched) -> String {
+    ctx.add("transitions", 2);
+    let state = build(m);
+    let (bytes, wdev) = match do_write(&state, wsched) {
+        Ok(b) => b,
+        Err(e) => {
+            ctx.violation("C38:write-failed", e.clone(), trace);
+            return e;
+        }
+    };
+    let payload = bytes.len().saturating_sub(8) as u64;
+    let out = match do_read(&bytes, rsched) {
+        Ok(o) => o,
+        Err(e) => {
+            ctx.violation("C38:read-crash", e.clone(), trace);
+            return e;
+        }
+    };
+    ctx.add("deviations_applied", (wdev + out.deviations_applied) as u64);
+    if payload > LIMIT {
+        ctx.inc("outcome_oversize_state");
+        return check_oversize(ctx, &out, payload, trace);
+    }
+    match &out.result {
+        Err(e) => {
+            ctx.violation(
+                "C38:published-state-unreadable",
+                format!("a {payload}-byte snapshot was written but reading it back failed: {e}"),
+                trace,
+            );
+            format!("payload={payload} read=Err({e})")
+        }
+        Ok(g) => {
+            ctx.inc("outcome_read_back");
+            let bad = compare(m, g, false, false);
+            if !bad.is_empty() {
+                let class = mismatch_class(&bad);
+                ctx.violation(class, format!("{} field(s) differ: {}", bad.len(), bad[..bad.len().min(3)].join(" | ")), trace);
+            }
+            if out.consumed != bytes.len() {
+                ctx.violation("C38:message-not-consumed", format!("{} of {} bytes consumed", out.consumed, bytes.len()), trace);
+            }
+            format!("payload={payload} read=Ok mismatches={bad:?}")
+        }
+    }
+}
+
+/// The statement's second clause for a header announcing `announced` > 1 MiB.
+fn check_oversize(ctx: &Ctx, out: &ReadOutcome, announced: u64, trace: &str) -> String {
+    if out.result.is_ok() {
+        ctx.violation("C38:oversize-accepted", format!("a message announcing {announced} bytes was accepted"), trace);
+    }
+    if !out.after_header_requests.is_empty() || out.consumed > 8 {
+        ctx.violation(
+            "C38:payload-read-after-oversize-header",
+            format!(
+                "header announced {announced} bytes (> 1 MiB) but the reader went on to request payload: requests {:?}, {} bytes consumed",
+                &out.after_header_requests[..out.after_header_requests.len().min(4)],
+                out.consumed
+            ),
+            trace,
+        );
+    }
+    format!(
+        "announced={announced} read={} after_header_requests={:?} consumed={}",
+        if out.result.is_ok() { "Ok".to_string() } else { format!("Err({})", out.result.as_ref().err().unwrap()) },
+        out.after_header_requests,
+        out.consumed
+    )
+}
+
+// --- cases ------------------------------------------------------------------------------------
+
+/// All schedules with <= `max_dev` deviations on call indices < `calls`, over `kinds`.
+fn schedules(calls: usize, kinds: &[Dev], max_dev: usize) -> Vec<Sched> {
+    let mut out: Vec<Sched> = vec![vec![]];
+    if max_dev >= 1 {
+        for i in 0..calls {
+            for a in kinds {
+                out.push(vec![(i, *a)]);
+            }
+        }
+    }
+    if max_dev >= 2 {
+        for i in 0..calls {
+            for j in i + 1..calls {
+                for a in kinds {
+                    for b in kinds {
+                        out.push(vec![(i, *a), (j, *b)]);
+                    }
+                }
+            }
+        }
+    }
+    out
+}
+
+fn dev_kinds() -> Vec<Dev> {
+    let mut k = vec![Dev::Pending, Dev::Half, Dev::AllButOne];
+    for n in 1..=7 {
+        k.push(Dev::Short(n));
+    }
+    k
+}
+
+fn pack_durs(ds: &[i64]) -> MState {
+    let mut m = base(3, 1);
+    let mut it = ds.iter().copied().chain(std::iter::repeat(0));
+    m.precision = it.next().unwrap();
+    m.root_delay = it.next().unwrap();
+    m.acc_steps = it.next().unwrap();
+    m.acc_thr = Some(it.next().unwrap());
+    for s in m.sources.iter_mut() {
+        for k in 0..5 {
+            s.durs[k] = it.next().unwrap();
+        }
+    }
+    m
+}
+const DURS_PER_STATE: usize = 19;
+
+fn pack_floats(fs: &[u64]) -> MState {
+    let mut m = base(1, 0);
+    let mut it = fs.iter().map(|b| f64::from_bits(*b)).chain(std::iter::repeat(0.0));
+    m.uptime = it.next().unwrap();
+    for k in 0..4 {
+        m.var[k] = it.next().unwrap();
+    }
+    m
+}
+const FLOATS_PER_STATE: usize = 5;
+
+fn dur_sweep(thorough: bool) -> Vec<i64> {
+    let mut v: Vec<i64> = Vec::new();
+    for k in 0..=62u32 {
+        for d in -2i64..=2 {
+            v.push((1i64 << k).wrapping_add(d));
+            v.push((-(1i64 << k)).wrapping_add(d));
+        }
+    }
+    for d in 0..4 {
+        v.push(i64::MAX - d);
+        v.push(i64::MIN + d);
+    }
+    let n = if thorough { 100_000i64 } else { 2000 };
+    for s in -n..=n {
+        for frac in [0i64, 1, 1 << 31, 0xFFFF_FFFF] {
+            v.push((s << 32) | frac);
+        }
+    }
+    // whole-range stride sweep
+    let steps: u64 = if thorough { 1 << 21 } else { 1 << 15 };
+    let stride = (u64::MAX / steps) as i64;
+    let mut x = i64::MIN;
+    for _ in 0..steps {
+        v.push(x);
+        v.push(x ^ 0x5555_5555);
+        x = x.wrapping_add(stride);
+    }
+    v
+}
+
+fn float_sweep(thorough: bool) -> Vec<u64> {
+    let mut mants: Vec<u64> = vec![0, 1, 0x8_0000_0000_0000, 0xF_FFFF_FFFF_FFFF, 0x5_5555_5555_5555, 0xA_AAAA_AAAA_AAAB, 0x9_21FB_5444_2D18];
+    if thorough {
+        for k in 0..52 {
+            mants.push(1u64 << k);
+            mants.push((1u64 << k) - 1);
+            mants.push(0xF_FFFF_FFFF_FFFF ^ (1u64 << k));
+        }
+    }
+    let mut v = Vec::new();
+    for sign in [0u64, 1] {
+        for exp in 0..2047u64 {
+            for m in &mants {
+                v.push((sign << 63) | (exp << 52) | m);
+            }
+        }
+    }
+    v
+}
+
+/// A model state whose encoding is exactly `target` payload bytes (padding the first source name).
+fn sized_state(target: usize) -> Option<MState> {
+    let mut m = base(2, 1);
+    let (bytes, _) = do_write(&build(&m), &vec![]).ok()?;
+    let cur = bytes.len() - 8;
+    if target < cur {
+        return None;
+    }
+    m.sources[0].name.push_str(&"p".repeat(target - cur));
+    Some(m)
+}
+
+fn rep_state(i: usize) -> MState {
+    match i {
+        0 => base(0, 0),
+        1 => base(2, 2),
+        2 => filled(3, 3, 5, true),
+        _ => filled(1, 1, 17, true),
+    }
+}
+const REP_STATES: usize = 4;
+
+#[derive(Clone, Debug)]
+enum Case {
+    One(usize),
+    Pair(usize, usize),
+    Diag(usize),
+    Shape(usize, usize, usize),
+    Durs(Vec<i64>),
+    Floats(Vec<u64>),
+    Size(i64),
+    Len { announced: u64, avail: usize, sched: Sched },
+    Chunk { state: usize, write_side: bool, sched: Sched },
+    Trunc { state: usize, cut: usize },
+    Publish(usize, usize, usize),
+}
+
+fn trace_of(c: &Case) -> String {
+    match c {
+        Case::One(i) => format!("one:{i}"),
+        Case::Pair(i, j) => format!("pair:{i}:{j}"),
+        Case::Diag(k) => format!("diag:{k}"),
+        Case::Shape(a, b, p) => format!("shape:{a}:{b}:{p}"),
+        Case::Durs(d) => format!("durs:{}", d.iter().map(|x| x.to_string()).collect::<Vec<_>>().join(",")),
+        Case::Floats(f) => format!("floats:{}", f.iter().map(|x| format!("{x:016x}")).collect::<Vec<_>>().join(",")),
+        Case::Size(d) => format!("size:{d}"),
+        Case::Len { announced, avail, sched } => format!("len:{announced}:{avail}:{}", sched_str(sched)),
+        Case::Chunk { state, write_side, sched } => format!("chunk:{state}:{}:{}", if *write_side { "w" } else { "r" }, sched_str(sched)),
+        Case::Trunc { state, cut } => format!("trunc:{state}:{cut}"),
+        Case::Publish(a, b, p) => format!("publish:{a}:{b}:{p}"),
+    }
+}
+
+fn parse_case(t: &str) -> Option<Case> {
+    let p: Vec<&str> = t.split(':').collect();
+    let n = |s: &str| s.parse::<usize>().ok();
+    Some(match p.as_slice() {
+        ["one", i] => Case::One(n(i)?),
+        ["pair", i, j] => Case::Pair(n(i)?, n(j)?),
+        ["diag", k] => Case::Diag(n(k)?),
+        ["shape", a, b, c] => Case::Shape(n(a)?, n(b)?, n(c)?),
+        ["durs", d] => Case::Durs(d.split(',').map(|x| x.parse().ok()).collect::<Option<Vec<i64>>>()?),
+        ["floats", f] => Case::Floats(f.split(',').map(|x| u64::from_str_radix(x, 16).ok()).collect::<Option<Vec<u64>>>()?),
+        ["size", d] => Case::Size(d.parse().ok()?),
+        ["len", a, v, s] => Case::Len { announced: a.parse().ok()?, avail: n(v)?, sched: parse_sched(s)? },
+        ["chunk", st, side, s] => Case::Chunk { state: n(st)?, write_side: *side == "w", sched: parse_sched(s)? },
+        ["trunc", st, c] => Case::Trunc { state: n(st)?, cut: n(c)? },
+        ["publish", a, b, c] => Case::Publish(n(a)?, n(b)?, n(c)?),
+        _ => return None,
+    })
+}
+
+struct Shared {
+    muts: Vec<(String, Mutator)>,
+}
+
+fn run_case(ctx: &Ctx, sh: &Shared, c: &Case) -> String {
+    let trace = trace_of(c);
+    let none: Sched = vec![];
+    match c {
+        Case::One(i) => {
+            let mut m = base(2, 2);
+            (sh.muts[*i].1)(&mut m);
+            roundtrip(ctx, &m, &trace, &none, &none)
+        }
+        Case::Pair(i, j) => {
+            let mut m = base(2, 2);
+            (sh.muts[*i].1)(&mut m);
+            (sh.muts[*j].1)(&mut m);
+            roundtrip(ctx, &m, &trace, &none, &none)
+        }
+        Case::Diag(k) => roundtrip(ctx, &filled(2, 2, *k, false), &trace, &none, &none),
+        Case::Shape(a, b, p) => roundtrip(ctx, &filled(*a, *b, *p, true), &trace, &none, &none),
+        Case::Durs(d) => roundtrip(ctx, &pack_durs(d), &trace, &none, &none),
+        Case::Floats(f) => roundtrip(ctx, &pack_floats(f), &trace, &none, &none),
+        Case::Size(delta) => match sized_state((LIMIT as i64 + delta) as usize) {
+            Some(m) => roundtrip(ctx, &m, &trace, &none, &none),
+            None => "cannot build".into(),
+        },
+        Case::Len { announced, avail, sched } => {
+            ctx.add("transitions", 1);
+            let mut bytes = announced.to_be_bytes().to_vec();
+            bytes.extend(std::iter::repeat(b'7').take(*avail));
+            let out = match do_read(&bytes, sched) {
+                Ok(o) => o,
+                Err(e) => {
+                    ctx.violation("C38:read-crash", e.clone(), &trace);
+                    return e;
+                }
+            };
+            ctx.add("deviations_applied", out.deviations_applied as u64);
+            if *announced > LIMIT {
+                ctx.inc("outcome_oversize_header_rejected_or_flagged");
+                check_oversize(ctx, &out, *announced, &trace)
+            } else {
+                // not a state: whatever arrives, it must be an error (a digit string is not an ObservableState)
+                if out.result.is_ok() {
+                    ctx.violation("C38:garbage-accepted", format!("{avail} digits were read as an ObservableState"), &trace);
+                }
+                ctx.inc("outcome_small_header_error");
+                format!("announced={announced} read={:?} consumed={}", out.result.as_ref().err(), out.consumed)
+            }
+        }
+        Case::Chunk { state, write_side, sched } => {
+            let m = rep_state(*state);
+            if *write_side { roundtrip(ctx, &m, &trace, sched, &none) } else { roundtrip(ctx, &m, &trace, &none, sched) }
+        }
+        Case::Trunc { state, cut } => {
+            ctx.add("transitions", 2);
+            let m = rep_state(*state);
+            let Ok((bytes, _)) = do_write(&build(&m), &none) else { return "write failed".into() };
+            let cut = (*cut).min(bytes.len().saturating_sub(1));
+            match do_read(&bytes[..cut], &none) {
+                Err(e) => {
+                    ctx.violation("C38:read-crash", e.clone(), &trace);
+                    e
+                }
+                Ok(o) => {
+                    if o.result.is_ok() {
+                        ctx.violation("C38:truncated-message-accepted", format!("{cut} of {} bytes read as a complete state", bytes.len()), &trace);
+                    }
+                    ctx.inc("outcome_truncation_error");
+                    format!("cut={cut}/{} read={:?}", bytes.len(), o.result.as_ref().err())
+                }
+            }
+        }
+        Case::Publish(a, b, p) => {
+            ctx.add("transitions", 2);
+            let m = filled(*a, *b, *p, true);
+            let st = build(&m);
+            let map: HashMap<ClockId, ObservableSourceState> = st.sources.iter().map(|s| (s.id, s.clone())).collect();
+            let sources = std::sync::RwLock::new(map);
+            let servers: Vec<ServerData> = m
+                .servers
+                .iter()
+                .map(|s| ServerData { stats: build_stats(&s.counters), config: ServerConfig::from(s.address) })
+                .collect();
+            let (_stx, srx) = tokio::sync::watch::channel(servers);
+            let (_ytx, yrx) = tokio::sync::watch::channel(st.system);
+            let mut w = SchedWriter { data: Vec::new(), calls: 0, sched: &none, deviations_applied: 0 };
+            let r = common::catch(|| drive(observer_probe::publish(&mut w, &sources, srx, yrx, st.program.now)));
+            match r {
+                Ok(Ok(Ok(()))) => {}
+                other => {
+                    let e = format!("handle_connection did not complete: {:?}", other.map(|x| x.map(|y| y.map_err(|e| e.to_string()))));
+                    ctx.violation("C38:write-failed", e.clone(), &trace);
+                    return e;
+                }
+            }
+            let out = match do_read(&w.data, &none) {
+                Ok(o) => o,
+                Err(e) => {
+                    ctx.violation("C38:read-crash", e.clone(), &trace);
+                    return e;
+                }
+            };
+            match &out.result {
+                Err(e) => {
+                    ctx.violation("C38:published-state-unreadable", format!("handle_connection output unreadable: {e}"), &trace);
+                    format!("Err({e})")
+                }
+                Ok(g) => {
+                    ctx.inc("outcome_published_read_back");
+                    // the daemon fills in its own program data
+                    let mut m2 = m.clone();
+                    m2.version = g.program.version.clone();
+                    m2.build_commit = g.program.build_commit.clone();
+                    m2.build_commit_date = g.program.build_commit_date.clone();
+                    let bad = compare(&m2, g, true, true);
+                    if !bad.is_empty() {
+                        ctx.violation(mismatch_class(&bad), format!("(via observer::handle_connection) {} field(s) differ: {}", bad.len(), bad[..bad.len().min(3)].join(" | ")), &trace);
+                    }
+                    format!("publish read=Ok mismatches={bad:?}")
+                }
+            }
+        }
+    }
+}
+
+fn replay(ctx: &Ctx, trace: &str) -> String {
+    let sh = Shared { muts: mutators() };
+    match parse_case(trace) {
+        Some(c) => run_case(ctx, &sh, &c),
+        None => format!("unparseable trace {trace:?}"),
+    }
+}
+
+#[test]
+fn check() {
+    let ctx = Ctx::new("C38");
+    if let Some(t) = common::replay_trace() {
+        let a = replay(&ctx, &t);
+        let b = replay(&ctx, &t);
+        common::report_replay("C38", &a, &b, ctx.violation_count() > 0);
+        return;
+    }
+    ctx.rule(
+        "A: every field of an ObservableState (2 sources, 2 servers) x its boundary alphabet (29 durations, 10 timestamps, 8 counters, \
+         25 floats, 8 strings incl. empty / 70 000 chars / escapes, cookie counts, addresses ...) with the rest at base values, the k-th \
+         value in all fields at once, every shape 0..=3 sources x 0..=3 servers x rotating fill; thorough: every pair of single-field \
+         changes. B: duration sweep (2^k +-2, whole seconds x 4 fractions, stride sweep over i64). C: every finite f64 exponent x sign \
+         x boundary mantissas. D: 16 announced lengths x 3 payload availabilities x every placement of <= 2 deviations on the header \
+         reads. E: every placement of <= 2 deviations (Pending, short 1..7, half, all-but-one) on the first 6 read calls / 5 write calls \
+         for 4 representative states. F: encodings of exactly 2^20-1, 2^20, 2^20+1, 2^20+2 bytes. G: every truncation point. H: \
+         observer::handle_connection for every shape. Distinct & non-trivial = a distinct case descriptor whose message reached the reader.",
+    );
+    ctx.assume("framing is an 8-byte length followed by the JSON text (needed only to know the encoded size of a state and to hand-craft oversize headers)");
+    ctx.assume("NtpSnapshot::bloom_filter is #[serde(skip)]: it is not part of what the daemon publishes and is not compared");
+    ctx.assume("states whose encoding exceeds 1 MiB fall under the statement's second clause (rejected before any payload is read), not the first");
+    ctx.assume("time values are built from raw bits with NtpTimestamp += NtpDuration::from_exponent(k) (exact public arithmetic), ClockId through its integer Deserialize, checked by self_test");
+    if let Err(e) = self_test() {
+        ctx.violation("C38:harness-self-test", e, "self_test");
+    }
+    let thorough = !ctx.quick();
+    let sh = Shared { muts: mutators() };
+    let nm = sh.muts.len();
+    ctx.set("single_field_mutations", nm as u64);
+    let mut cases: Vec<Case> = Vec::new();
+    // canonical first
+    for d in [-1i64, 0, 1] {
+        cases.push(Case::Size(d));
+    }
+    cases.push(Case::Size(2));
+    cases.push(Case::Len { announced: LIMIT + 1, avail: 0, sched: vec![] });
+    let seq = cases.len();
+    for i in 0..nm {
+        cases.push(Case::One(i));
+    }
+    for k in 0..dur_alphabet().len().max(f64_alphabet().len()) + 1 {
+        cases.push(Case::Diag(k));
+    }
+    for a in 0..=3 {
+        for b in 0..=3 {
+            for p in 0..30 {
+                cases.push(Case::Shape(a, b, p));
+                if p < 6 {
+                    cases.push(Case::Publish(a, b, p));
+                }
+            }
+        }
+    }
+    for ch in dur_sweep(thorough).chunks(DURS_PER_STATE) {
+        cases.push(Case::Durs(ch.to_vec()));
+    }
+    for ch in float_sweep(thorough).chunks(FLOATS_PER_STATE) {
+        cases.push(Case::Floats(ch.to_vec()));
+    }
+    // D: announced lengths
+    let lens: [u64; 16] = [
+        0, 1, 2, LIMIT - 1, LIMIT, LIMIT + 1, LIMIT + 2, 1 << 31, (1 << 32) - 1, 1 << 32, (1 << 32) + 5, (5 << 32) | 5,
+        (1 << 32) + LIMIT, 1 << 63, (1 << 63) + 5, u64::MAX,
+    ];
+    let kinds = dev_kinds();
+    let header_scheds = schedules(4, &kinds, 2);
+    for l in lens {
+        for avail in [0usize, 16, LIMIT as usize + 2] {
+            for s in &header_scheds {
+                if avail > 16 && s.len() == 2 && !thorough {
+                    continue; // quick: big payload only with <= 1 deviation
+                }
+                cases.push(Case::Len { announced: l, avail, sched: s.clone() });
+            }
+        }
+    }
+    // E: chunked delivery
+    let read_scheds = schedules(6, &kinds, 2);
+    let write_scheds = schedules(5, &kinds, 2);
+    for st in 0..REP_STATES {
+        for s in &read_scheds {
+            cases.push(Case::Chunk { state: st, write_side: false, sched: s.clone() });
+        }
+        for s in &write_scheds {
+            cases.push(Case::Chunk { state: st, write_side: true, sched: s.clone() });
+        }
+    }
+    // G: truncation
+    for st in 0..REP_STATES {
+        let len = do_write(&build(&rep_state(st)), &vec![]).map(|b| b.0.len()).unwrap_or(0);
+        for cut in 0..len {
+            cases.push(Case::Trunc { state: st, cut });
+        }
+    }
+    let first_bound = cases.len();
+    let run = |cases: &[Case], from: usize| {
+        common::par_for((cases.len() - from) as u64, 16, |i| {
+            let c = &cases[from + i as usize];
+            let obs = run_case(&ctx, &sh, c);
+            ctx.inc("evaluations");
+            ctx.inc(match c {
+                Case::One(_) | Case::Pair(..) | Case::Diag(_) | Case::Shape(..) => "cases_A_values",
+                Case::Durs(_) => "cases_B_durations",
+                Case::Floats(_) => "cases_C_floats",
+                Case::Len { .. } => "cases_D_lengths",
+                Case::Chunk { .. } => "cases_E_chunked",
+                Case::Size(_) => "cases_F_size_boundary",
+                Case::Trunc { .. } => "cases_G_truncations",
+                Case::Publish(..) => "cases_H_publish",
+            });
+            ctx.distinct(common::hash_of(&trace_of(c)));
+            if i % 7919 == 3 {
+                ctx.sample(format!("{} -> {}", trace_of(c).chars().take(80).collect::<String>(), obs.chars().take(160).collect::<String>()));
+            }
+        });
+    };
+    for c in &cases[..seq] {
+        let obs = run_case(&ctx, &sh, c);
+        ctx.inc("evaluations");
+        ctx.inc(if matches!(c, Case::Size(_)) { "cases_F_size_boundary" } else { "cases_D_lengths" });
+        ctx.distinct(common::hash_of(&trace_of(c)));
+        ctx.sample(format!("{} -> {}", trace_of(c), obs.chars().take(200).collect::<String>()));
+    }
+    run(&cases, seq);
+    ctx.set("durations_swept", dur_sweep(thorough).len() as u64);
+    ctx.set("floats_swept", float_sweep(thorough).len() as u64);
+    ctx.note("bound_1", &format!("{first_bound} cases: A one/diag/shape, B, C, D, E, F, G, H complete"));
+    // bound 2 (thorough): every pair of single-field changes
+    if thorough {
+        if ctx.over_budget() {
+            ctx.cap_hit("pairs of single-field changes not started; all single changes complete");
+        } else {
+            let total = (nm * (nm - 1) / 2) as u64;
+            // enumerate pairs (i < j) by index without materialising them
+            common::par_for(nm as u64, 1, |i| {
+                let i = i as usize;
+                for j in i + 1..nm {
+                    run_case(&ctx, &sh, &Case::Pair(i, j));
+                }
+                ctx.add("evaluations", (nm - i - 1) as u64);
+                ctx.add("cases_A_values", (nm - i - 1) as u64);
+            });
+            ctx.set("pairs_of_changes", total);
+            ctx.note("bound_2", &format!("{total} pairs of single-field changes complete"));
+        }
+    }
+    let ld = |a: &std::sync::atomic::AtomicU64| a.load(std::sync::atomic::Ordering::Relaxed);
+    ctx.set("float_fields_compared", ld(&FLOATS_COMPARED));
+    ctx.set("float_fields_not_equal", ld(&FLOATS_DIFFERENT));
+    ctx.set("float_max_ulp_error", ld(&FLOAT_MAX_ULPS));
+    ctx.set("states", ctx.get("evaluations"));
+    ctx.exhaustive(true);
+    ctx.finish();
+}
